@@ -1,4 +1,5 @@
 import BdModel.Proofs.LoadEffects
+import BdModel.Proofs.LoadDisplay
 /-
   C19 — listing, viewing and validating a DAG has no side effects.
   `reach T entry field` interprets the effect-site table extracted from builder.go / parser.go / loader.go
@@ -7,7 +8,7 @@ import BdModel.Proofs.LoadEffects
   name (any string).
 -/
 namespace BdModel.P19
-open BdModel.Load.Effects
+open BdModel.Load.Effects BdModel.Load.Display
 
 /-- **C19 (full strength).** Through a non-evaluating entry point (LoadYAML — validation on save,
     LoadMetadata — listing / scheduler daemon, LoadWithoutEval — display) no definition field reaches a
@@ -62,6 +63,34 @@ theorem C19_call_steps :
       (⟨"parseFuncCall", "util.SplitCommandWithParse", "0"⟩ : Effect) ∈ reach (addSite canon callSite) e f) :=
   ⟨fun e he f _ => C19_full e he f, call_site_would_leak.1⟩
 
+/-- **C19 on the display path.** A definition is shown, listed, searched, validated on save, suspended, renamed,
+    deleted through the API handlers and the client calls of `displayEntries` (all of them functions of the extracted
+    table). From none of them is an exec / setenv site of the display files (client.go, model/node.go, model/status.go —
+    the placeholder status `NewStatusDefault → NewStatus → FromSteps / nodeOrNil → NewNode` —, the local stores, the
+    handlers and converters) reachable, and every loader function they enter is a non-evaluating one — through which,
+    by `C19_full`, no definition field reaches an effect. The display does enter the loader and does build
+    placeholder nodes (`display_enters_loader`), so the statement is about connected code. -/
+theorem C19_display :
+    (∀ e ∈ displayEntries, isFunc canonD e = true) ∧
+    (∀ e ∈ displayEntries, effectsFrom canonD e = [] ∧
+      ∀ l ∈ loadersFrom canonD e, l ∈ nonEvaluatingEntries ∧ ∀ f : String, reach canon l f = []) ∧
+    "LoadWithoutEval" ∈ loadersFrom canonD "client.GetStatus" ∧ "model.NewNode" ∈ fnsFrom canonD "client.GetStatus" :=
+  ⟨fun e he => entries_exist e (List.mem_append_left _ he),
+   fun e he => ⟨display_no_effects e he, fun l hl =>
+     ⟨display_loaders_non_evaluating e he l hl, fun f => C19_full l (display_loaders_non_evaluating e he l hl) f⟩⟩,
+   display_enters_loader.1, display_enters_loader.2.2.2.2.1⟩
+
+/-- **only starting executes, on the display side too; and the table sees the display mutant.** Start / restart / retry
+    reach the client's `exec.Command`. With the call edge `NewNode → splitQuotedArgs` and the site
+    `splitQuotedArgs / util.SplitCommandWithParse` of seeded mutant C19-5 in the table, every entry whose answer contains a
+    placeholder status (the DAG page, the list, delete, the status calls of the client) reaches that exec site: such a
+    change is a TABLE difference (tie `displaySites` / `displayEdges` breaks; re-adopting the table refutes `C19_display`). -/
+theorem C19_display_sensitive :
+    (∀ e ∈ startEntries, (⟨"client.Start", "exec.Command", "0"⟩ : Effect) ∈ effectsFrom canonD e) ∧
+    (∀ e ∈ placeholderEntries,
+      (⟨"model.splitQuotedArgs", "util.SplitCommandWithParse", "0"⟩ : Effect) ∈ effectsFrom seedC19_5 e) :=
+  ⟨start_reaches_exec, seed_leaks⟩
+
 /-- the option sets of the entry points, as read from loader.go -/
 example : optsOf canon "LoadYAML" = some ⟨true, false⟩ ∧ optsOf canon "LoadMetadata" = some ⟨true, true⟩ ∧
     optsOf canon "LoadWithoutEval" = some ⟨true, false⟩ ∧ optsOf canon "Load" = some ⟨false, false⟩ := by decide +kernel
@@ -72,3 +101,5 @@ end BdModel.P19
 #print axioms BdModel.P19.C19_load_evaluates
 #print axioms BdModel.P19.C19_guards_needed
 #print axioms BdModel.P19.C19_call_steps
+#print axioms BdModel.P19.C19_display
+#print axioms BdModel.P19.C19_display_sensitive
